@@ -89,6 +89,12 @@ def make_cases(ctx, n):
         v.meta = g.meta[:pos] + [{"kind": "expr", "npk": 0, "what": "jump", "ns": mag * mult}] + g.meta[pos:]
         v.files, v.text = {}, None
         v.gen = {"d": mag * mult, "nbefore": sum(m["npk"] for m in g.meta[:pos]), "base": c.name}
+        if i % 3 == 1:
+            # several statements on one line, statements broken over lines: time is the order of the statements, not of the lines
+            from props.c14 import render
+            lay = ("groups", "one", "split")[i % 9 // 3]
+            c.text = render(c.stmts, __import__("random").Random(ctx.rng.getrandbits(32)), lay)[0]
+            v.text = render(v.stmts, __import__("random").Random(ctx.rng.getrandbits(32)), lay)[0]
         cases.append(v)
     return cases
 
